@@ -403,6 +403,8 @@ static void dump_state(tjinstance *t, char *out, size_t cap)
 struct runctx {
   tjhandle h;
   int type;
+  unsigned char *arena;   /* a large caller buffer of which only a declared prefix may be written */
+  size_t declared;        /* declared size of the arena for the current call (0 = arena not in use) */
   unsigned char *jbuf;    /* JPEG buffer currently held by the "caller" */
   size_t jcap, jsize;     /* its capacity (when the caller allocated it) / last JPEG size */
 };
@@ -454,9 +456,26 @@ static void classify(struct runctx *rc, struct opres *r)
 static int pf_of(const char *s) { int v = atoi(s); return (v < 0 || v >= TJ_NUMPF) ? TJPF_RGB : v; }
 
 /* obtain the JPEG destination buffer according to the buffer mode */
+#define ARENA_SIZE 400000
+static void drop_jbuf(struct runctx *rc)
+{
+  if (rc->jbuf != rc->arena) tj3Free(rc->jbuf);
+  rc->jbuf = NULL;
+}
 static void prep_jbuf(struct runctx *rc, char mode, size_t big)
 {
   unsigned char *nb;
+  rc->declared = 0;
+  if (mode == 'A' || mode == 'a') {
+    /* the same caller buffer (same address) every time; 'A' declares all of it, 'a' only 1 KB of it */
+    if (!rc->arena) rc->arena = (unsigned char *)tj3Alloc(ARENA_SIZE);
+    drop_jbuf(rc);
+    rc->declared = mode == 'A' ? ARENA_SIZE : 1024;
+    memset(rc->arena + rc->declared, 0xC3, ARENA_SIZE - rc->declared);
+    rc->jbuf = rc->arena; rc->jcap = rc->declared; rc->jsize = rc->declared;
+    return;
+  }
+  if (rc->jbuf == rc->arena && rc->arena) rc->jbuf = NULL;   /* the arena stays ours */
   switch (mode) {
   case 'r':                       /* reuse whatever the caller holds */
     break;
@@ -787,6 +806,13 @@ static void run_op(struct runctx *rc, char **tk, int nt, struct opres *r)
   r->hash = hash;
   if (r->rc == -99) strcpy(r->stage, "?");
   else classify(rc, r);
+  if (rc->arena && rc->declared) {
+    /* nothing beyond the declared size of the caller's buffer may have been written */
+    size_t k, bad = 0;
+    for (k = rc->declared; k < ARENA_SIZE; k++) if (rc->arena[k] != 0xC3) bad++;
+    if (bad) snprintf(r->stage, sizeof(r->stage), "OVERRUN%zu", bad);
+    rc->declared = 0;
+  }
 }
 
 /* ------------------------------------------------- libjpeg API mirror ("L") */
@@ -1016,11 +1042,13 @@ static void run_history(char *line)
       printf(" | %s", mismatch ? "DIFF" : "SAME");
       fflush(stdout);
       /* after any history both instances must be destroyable */
-      tj3Free(f.jbuf);
+      if (f.jbuf != f.arena) tj3Free(f.jbuf);
+      tj3Free(f.arena);
       tj3Destroy(f.h);
     }
   }
-  tj3Free(u.jbuf);
+  if (u.jbuf != u.arena) tj3Free(u.jbuf);
+  tj3Free(u.arena);
   tj3Destroy(u.h);
   printf(" | destroyed\n");
 }
